@@ -230,6 +230,10 @@ class Fn:
 
     # ---- expressions: V(e) is a Lean term of type PVal usable inside a `do` statement (may contain `(← …)`)
     def V(self, e: ast.expr) -> str:
+        for hook in EXPR_HOOKS:
+            r = hook(self, e)
+            if r is not None:
+                return r
         if isinstance(e, ast.Constant):
             return self.const(e.value)
         if isinstance(e, ast.Name):
@@ -554,6 +558,9 @@ class Fn:
             self.stmt(ind, s)
 
     def stmt(self, ind: int, s: ast.stmt):
+        for hook in STMT_HOOKS:
+            if hook(self, ind, s):
+                return
         if isinstance(s, ast.Expr) and isinstance(s.value, ast.Constant) and isinstance(s.value.value, str):
             return  # docstring
         if isinstance(s, ast.Pass):
@@ -794,12 +801,15 @@ def _info_of(fn: "Fn", text: str = "") -> FnInfo:
 
 
 def generate(write: bool = True) -> dict:
+    if HERE not in sys.path:
+        sys.path.insert(0, HERE)
+    plugin_problems = load_plugins()
     mods: dict[str, ast.Module] = {}
     known: dict[str, FnInfo] = {}
     out = ["-- GENERATED by harness/pytranslate.py from the source text of /repo — do not edit.",
-           "import HtmlVerif.Py.Prim", "", "set_option linter.unusedVariables false", "",
+           "import HtmlVerif.Py.Prim"] + [f"import {m}" for m in IMPORTS] + ["", "set_option linter.unusedVariables false", "",
            "namespace HtmlVerif.Generated.Src", "open HtmlVerif HtmlVerif.Py", ""]
-    notes = []
+    notes = list(plugin_problems)
     done: set[str] = set()
 
     def unavailable(spec: FnSpec, reason: str):
@@ -847,6 +857,21 @@ def generate(write: bool = True) -> dict:
             if m.lean in AFTER:
                 out.append(AFTER[m.lean].strip("\n"))
                 out.append("")
+    # the table the driver's `src` op dispatches on: every translated function by name and arity
+    out.append("/-- `src <name> [args]`: run a translated function (recursive ones with ample fuel) -/")
+    out.append("def runByName (G : Globals) (f : String) (a : List PVal) : Option (PyM PVal) :=")
+    out.append("  match f, a with")
+    for lean_name, info in known.items():
+        n = len(info.all_params) if info.available else None
+        if n is None:
+            continue
+        vs = [f"x{i}" for i in range(n)]
+        fuel = " 100000" if (info.spec.recursive or info.spec.group) else ""
+        out.append(f'  | "{lean_name}", [{", ".join(vs)}] => some ({lean_name} G{fuel} {" ".join(vs)})')
+    if "HTML_radd" in known and known["HTML_radd"].available and known["HTML_add"].available:
+        out.append('  | "add", [x0, x1] => some (pyAdd G x0 x1)')
+    out.append("  | _, _ => none")
+    out.append("")
     out.append("end HtmlVerif.Generated.Src")
     text = "\n".join(out) + "\n"
     if write:
@@ -862,6 +887,34 @@ def generate(write: bool = True) -> dict:
 ARITY = {"html_escape": 2, "HTML_as_string": 1, "HTML_add": 2, "HTML_radd": 2, "normalize_text": 1,
          "normalize_attr_name": 1, "normalize_attr_value": 1, "TagAttrDict_setitem": 3, "TagAttrDict_update": 3,
          "Tag_get_html_string": 3, "TagList_get_html_string": 5}
+
+#: extra Lean modules the generated file imports (Py/Prim<Area>.lean of the area plug-ins)
+IMPORTS: list[str] = []
+#: expression / statement hooks of the area plug-ins: called first; return a Lean term (or True for a handled statement)
+#: or None to decline
+EXPR_HOOKS: list = []
+STMT_HOOKS: list = []
+
+
+def load_plugins() -> list[str]:
+    """area plug-ins `harness/pytr_<area>.py`: each may extend SPECS, AFTER, DISPATCH, FIELD_CLASS, BUILTIN1, STR_METHODS,
+    G_METHODS, GLOBAL_NAMES, METHOD_OWNER, STR_FIELDS, ARITY, IMPORTS, EXPR_HOOKS, STMT_HOOKS through `register(pytranslate)`.
+    Loaded in file-name order; a plug-in that fails to load is reported and skipped."""
+    import importlib
+    problems = []
+    if getattr(load_plugins, "done", False):
+        return problems
+    load_plugins.done = True
+    me = sys.modules[__name__]
+    for fn in sorted(os.listdir(HERE)):
+        if fn.startswith("pytr_") and fn.endswith(".py"):
+            try:
+                mod = importlib.import_module(fn[:-3])
+                mod.register(me)
+            except Exception as e:  # noqa: BLE001
+                problems.append(f"translator plug-in {fn}: {type(e).__name__}: {e}")
+    return problems
+
 
 if __name__ == "__main__":
     r = generate(write="--dry" not in sys.argv)
